@@ -36,9 +36,10 @@ MANIFEST = dict(
           "oracle. Theorems for all lists and requirements: the result holds exactly the satisfying versions (npm non-range: "
           "the first version in npm order whose string or tag equals the requirement); npm results are ascending by semver then "
           "spelling, unparsable last, the latest-tagged version repositioned; npm results are invariant under permutation of "
-          "the list (unique sorted permutation of a strict total order); Maven/PyPI invariance at LocalClient.MatchingVersions "
-          "under the no-equal-distinct side condition, refuted without it and refuted at raw MatchRequirement (F-C12-1), "
-          "latest detection by substring refuted against the tag reading (F-C12-2). Tied to the code by differential "
+          "the list (unique sorted permutation of a strict total order); for the code as repaired in the tree (tie-break, sorted "
+          "copy, exact latest tag: 0c8718f, 3ff1c70, ffab6c8) permutation invariance holds with no side condition "
+          "(C12_perm_repaired); the old variants are refuted by their witnesses (F-C12-1, F-C12-1b, F-C12-2, all fixed) and the "
+          "variant tied to the tree is detected on every run by replaying them. Tied to the code by differential "
           "execution and by direct oracles over 5 orders of each list."),
     note=("Trusted: Coq 8.16.1 kernel (+vm_compute), translator gotables, extraction (ExtrOcamlBasic only) and driver.ml, the "
           "Go harness and python generators/oracles. The Gallina model is hand-written and validated against the "
